@@ -190,7 +190,7 @@ func (v *tsValidator) ValidateReadTS(ctx context.Context, readTS uint64, isStale
 	v.calls++
 	if !tsIsValid(readTS) {
 		v.rejected++
-		return errors.Errorf("c10: read ts %d is in the future (now %d)", readTS, uint64(nowTS))
+		return errors.Errorf("c10 read ts %d is in the future (now %d)", readTS, uint64(nowTS))
 	}
 	return nil
 }
@@ -367,11 +367,11 @@ func faultResp(a answer, req *tikvrpc.Request, tStore uint64, topo string) (*tik
 	var e *errorpb.Error
 	switch a {
 	case aRPCErr:
-		return nil, errors.New("c10: connection refused")
+		return nil, errors.New("c10 connection refused")
 	case aDeadline:
 		return nil, errors.WithStack(context.DeadlineExceeded)
 	case aGRPCCanceled:
-		return nil, errors.WithStack(status.Error(codes.Canceled, "c10: grpc canceled"))
+		return nil, errors.WithStack(status.Error(codes.Canceled, "c10 grpc canceled"))
 	case aNotLeaderNoHint:
 		e = &errorpb.Error{NotLeader: &errorpb.NotLeader{RegionId: regionID}}
 	case aNotLeaderNext:
